@@ -15,9 +15,11 @@ import (
 	"pgregory.net/rapid"
 
 	"verifharness/hx"
+	"verifharness/observe"
+	"verifharness/wire"
 )
 
-func TestMain(m *testing.M) { hx.Main(m) }
+func TestMain(m *testing.M) { wire.Init(false); hx.Main(m) }
 
 type tgt struct {
 	svc   string
@@ -225,7 +227,13 @@ func TestC04Weights(t *testing.T) {
 			for k := 0; k < off; k++ {
 				tbl.Lookup(req, "", route.Picker["rr"], route.Matcher["prefix"], cache, false)
 			}
-			c1, c2 := cycle(), cycle()
+			c1 := cycle()
+			if rapid.IntRange(0, 2).Draw(t, "admin-looks-at-the-table") == 0 {
+				// the admin API / UI lists the table between two cycles
+				observe.Poke(tbl)
+				hx.Class("admin-endpoints-read-the-table-between-two-cycles")
+			}
+			c2 := cycle()
 			tol := float64(2+n) / float64(10000-n)
 			for i := range c1 {
 				if c1[i] != c2[i] {
